@@ -1,12 +1,20 @@
 import Proofs.BuildLoop
 import Proofs.BuildProgress
+import Proofs.BuildTerm
 /-!
 # C03 — builds terminate with every reachable specifier settled under any faults
 
 Model: `DG/Build.lean`.  The world is arbitrary: `World.resp` may answer anything for any
 specifier (errors, missing, redirect chains and loops, external markers), `Content` may be
 undecodable or unparsable.  What is proved holds for *every* world and option set.
-Termination: what is proved is that the loop cannot spin — an iteration that takes a request off
+Termination is PROVED (`builds_terminate`) for every world in which a cache-bypassing reload
+answers like a normal load and the final specifier a module is served under does not itself lead
+elsewhere (a consistent loader): for every option set, all roots and configured imports, some
+amount of fuel finishes the build.  The measure is lexicographic over (specifiers not accounted
+for yet, asset stand-ins and asset requests in flight, redirect budget of the queued requests);
+the invariant that makes it work is that every recorded redirect leads through entry-less
+specifiers to an entry (`Proofs/BuildWalk*.lean`, `BuildTerm.lean`).  For inconsistent loaders and
+reload answers that differ the loop is still shown not to spin — an iteration that takes a request off
 the queue calls the loader, and at most two iterations in a row take none (`no_spinning`), so a
 build that does not finish keeps calling the loader.  That the number of loader calls is bounded
 is not proved (the model takes fuel); the correspondence run bounds the implementation's loader
@@ -98,6 +106,21 @@ theorem loop_invariants (w : World) (o : Opts) (st : St) (hinv : PendInv st) (hd
     PendInv (iter w o st) ∧ DynInv (iter w o st) :=
   ⟨pendInv_iter w o st hinv, dynInv_iter w o st hd⟩
 
+/-- **builds terminate**: whatever the loader answers — errors, missing modules, redirect chains and
+cycles, self-redirects, external markers, undecodable or unparsable content — provided a reload
+answers like a normal load and module answers name final specifiers that do not lead elsewhere -/
+theorem builds_terminate (w : World) (o : Opts) (roots : List Spec) (imports : List (Spec × List Dep))
+    (hre : w.reloadResp = []) (hfin : ∀ q f, w.respOf q = .module f → f ≠ q → finalOf w f = f) :
+    ∃ fuel out, build w o roots imports fuel = some out :=
+  build_terminates' w o roots imports hre hfin
+
+/-- … and the build that finishes has no pending entry (termination and `no_pending_after_build` together) -/
+theorem builds_finish_settled (w : World) (o : Opts) (roots : List Spec) (imports : List (Spec × List Dep))
+    (hre : w.reloadResp = []) (hfin : ∀ q f, w.respOf q = .module f → f ≠ q → finalOf w f = f) :
+    ∃ fuel out, build w o roots imports fuel = some out ∧ ∀ s a, out.slot s ≠ some (.pending a) := by
+  obtain ⟨fuel, out, h⟩ := build_terminates' w o roots imports hre hfin
+  exact ⟨fuel, out, h, build_no_pending w o roots imports fuel out h⟩
+
 /-- non-vacuity: a world with a self-redirect, a redirect loop and a missing module finishes with
 error entries only -/
 def mkDep (t s r : Nat) (dyn : Bool) : BDep :=
@@ -122,5 +145,26 @@ example : ((build faultWorld faultOpts [0] [] 100).map fun st =>
     st.slots.map fun p => (p.1, errKindOf p.2)) =
     some [(0, none), (1, some .tooManyRedirects), (3, some .tooManyRedirects), (4, some .missing)] := by
   decide
+
+/-- the fault world above satisfies the hypotheses of the termination theorem -/
+example : faultWorld.reloadResp = [] ∧ ∀ q f, faultWorld.respOf q = .module f → f ≠ q → finalOf faultWorld f = f := by
+  refine ⟨rfl, ?_⟩
+  intro q f h hne
+  -- the only module answer is `0 ↦ module 0`
+  unfold World.respOf faultWorld at h
+  simp only [List.lookup] at h
+  by_cases h0 : q = 0
+  · subst h0; simp at h; exact absurd h.symm hne
+  · by_cases h1 : q = 1
+    · subst h1; simp at h
+    · by_cases h2 : q = 2
+      · subst h2; simp at h
+      · by_cases h3 : q = 3
+        · subst h3; simp at h
+        · have e0 : (q == 0) = false := by simpa using h0
+          have e1 : (q == 1) = false := by simpa using h1
+          have e2 : (q == 2) = false := by simpa using h2
+          have e3 : (q == 3) = false := by simpa using h3
+          simp [e0, e1, e2, e3] at h
 
 end DG.C03
